@@ -127,6 +127,33 @@ func genExpired(r *h.Rand, emit func([]string)) {
 	emit(ops)
 }
 
+// a truncated group: ExpiredShardGroups must keep testing EndTime (points stored before the
+// truncation live in [StartTime, EndTime)); expiry is queried around TruncatedAt + D and EndTime + D
+func genTruncExpired(r *h.Rand, emit func([]string)) {
+	sgd := h.Pick(r, []int64{m.Hour, m.Day, 7 * m.Day, 1_000_000_007})
+	ops := []string{m.Fmt("rp db0 rp0 %d 1", sgd)}
+	base := h.Pick(r, []int64{0, 1_600_000_000_000_000_000, -2_000_000_000_000_000_000}) + r.Range(-20, 20)*sgd
+	sb, eb := m.TruncBounds(base, sgd)
+	st, en := sb.Int64(), eb.Int64()
+	ops = append(ops, m.Fmt("ms db0 rp0 - %d,%d", st+r.Range(0, sgd-1), en+r.Range(0, sgd-1)))
+	cut := st + r.Range(1, sgd-1) // inside the first group: it is truncated, the next one is "future"
+	if r.Chance(0.15) {
+		cut = st
+	}
+	ops = append(ops, m.Fmt("trunc %d", cut), "dump db0 rp0")
+	if r.Chance(0.3) {
+		ops = append(ops, "restart")
+	}
+	D := h.Pick(r, []int64{1, m.Hour, sgd, 30 * m.Day, r.Range(1, 1<<40)})
+	for _, t := range []int64{cut + D, cut + D + 1, cut + D + (en-cut)/2, en + D - 1, en + D, en + D + 1, en + sgd + D + 1} {
+		ops = append(ops, m.Fmt("exp db0 rp0 %d %d", D, t))
+	}
+	if r.Chance(0.5) { // writes after the truncation go to a new group; more queries
+		ops = append(ops, m.Fmt("ms db0 rp0 - %d", cut+r.Range(0, en-cut-1)), "dump db0 rp0", m.Fmt("exp db0 rp0 %d %d", D, cut+D+1), m.Fmt("exp db0 rp0 %d %d", D, en+D+1))
+	}
+	emit(ops)
+}
+
 // a deletion-check case: policies with hour-aligned groups, cutoffs on the half hour
 func genDeletion(r *h.Rand, emit func([]string)) {
 	type pol struct {
@@ -236,6 +263,9 @@ func gen(r *h.Rand, tier string, emit func([]string)) {
 	for i := 0; i < n; i++ {
 		genWrites(r, emit)
 		genExpired(r, emit)
+		if i%3 == 0 {
+			genTruncExpired(r, emit)
+		}
 		genDeletion(r, emit)
 	}
 }
